@@ -775,6 +775,9 @@ func genScript(r *prng.R) script {
 	nPol := r.Range(1, 6)
 	inTx := false
 	genObjs := func() []obj {
+		if r.Chance(1, 10) {
+			return nil // a policy that covers no object (stored with a nil list)
+		}
 		n := r.Range(1, 3)
 		var out []obj
 		for i := 0; i < n; i++ {
@@ -787,6 +790,9 @@ func genScript(r *prng.R) script {
 		return out
 	}
 	genActs := func() []string {
+		if r.Chance(1, 8) {
+			return nil // a policy that grants no action (stored with a nil list)
+		}
 		var out []string
 		for _, a := range actions {
 			if r.Chance(1, 2) {
